@@ -116,13 +116,16 @@ def make_sampler(cfg, td, rng, which="tree"):
     if cfg["wiring"] == "run":
         kern = prun.setup_kernel(outlier_prob, PROPOSAL_NAME[cfg["kernel"]], rng, td)
         s = prun.setup_samplers(kern, cfg["np"], outlier_prob, cfg["thr"], rng, td)
-        return {"tree": s.tree_sampler, "subtree": s.subtree_sampler, "dp": s.dp_sampler, "prg": s.prg_sampler}[which]
+        return {"tree": s.tree_sampler, "subtree": s.subtree_sampler, "dp": s.dp_sampler, "prg": s.prg_sampler, "burnin": s.burnin_sampler}[which]
     if which == "dp":
         return DataPointSampler(td, rng, outliers=bool(cfg["outl"]))
     if which == "prg":
         return PruneRegraphSampler(td, rng)
     kern = c08.kernel_cls(cfg["kernel"])(td, rng, outlier_proposal_prob=(0.1 if cfg["outl"] else 0.0),
                                          perm_dist=RootPermutationDistribution())
+    if which == "burnin":
+        from phyclone.smc.samplers import UnconditionalSMCSampler
+        return UnconditionalSMCSampler(kern, num_particles=cfg["np"], resample_threshold=cfg["thr"])
     cls = ParticleGibbsTreeSampler if which == "tree" else ParticleGibbsSubtreeSampler
     return cls(kern, rng, num_particles=cfg["np"], resample_threshold=cfg["thr"])
 
@@ -132,7 +135,7 @@ def cfg_label(cfg):
         cfg["wiring"], cfg["kernel"], cfg["outl"], cfg["n"], cfg["np"], cfg["thr"], cfg["dist"] + ("" if cfg["dist"] == "table" else ":a=%s" % cfg["alpha"]))
 
 
-def run_configs(ck, configs, table, which="tree", prop="C01", corrupt=None, sigfn=None):
+def run_configs(ck, configs, table, which="tree", prop="C01", corrupt=None, sigfn=None, structural_only=False):
     """Exact kernels for all configs (parallel over (config, start state)); stationarity verdicts."""
     tasks = []
     for ci, cfg in enumerate(configs):
@@ -185,7 +188,12 @@ def run_configs(ck, configs, table, which="tree", prop="C01", corrupt=None, sigf
             continue
         st = kernels.stationarity(states, logpi, K)
         if len(states) > 1:
-            ck.nontrivial(label)
+            ck.nontrivial(("%s:" % which) + label)
+        if structural_only:
+            # C07: only well-formedness / data conservation / definedness of the move are judged here
+            if st["escaped"] > 0:
+                ck.violation("%s|%s|data_not_conserved" % (prop, base), "%s returns trees that do not hold exactly the data it was given (mass %.3g) [%s]" % (which, st["escaped"], label), rep)
+            continue
         ck.extra.setdefault("residuals", {})[("%s:" % which) + label] = {"max_abs": st["max_abs"], "max_rel": st["max_rel"], "paths": paths, "states": len(states)}
         if st["escaped"] > 0:
             ck.violation("%s|%s|escaped" % (prop, base), "mass %.3g leaves the universe of trees over all data [%s]" % (st["escaped"], label), rep)
